@@ -100,3 +100,173 @@ def s22_eq_vs_ord(ctx):
     r.floor('enums with manual PartialEq and derived ordering', 1, n)
     r.info['listed_only'] = listed
     return r
+
+
+# ---------------------------------------------------------------------------------------
+# A05: Action conversions / operators are total, and preserve the sign of the ratio (variant-set abstract interpretation)
+
+def _action_fns(f):
+    """(label, mono body id) of every function that produces or consumes an Action in core::action"""
+    out = []
+    for bid, bj in sorted(f.bodies.items()):
+        if bj['generic'] or bj.get('closure_of'):
+            continue
+        d = bj['def']
+        if not (d.startswith('core::action::') or '<core::action::Action as ' in d or 'for core::action::Action>' in d or 'From<core::action::Action>' in d):
+            continue
+        name = d.rsplit('::', 1)[-1]
+        if name in ('fmt', 'clone', 'cmp', 'partial_cmp', 'assert_fields_are_eq', 'serialize', 'deserialize', 'hash', 'expecting'):
+            continue
+        if '_serde' in d or '::tests::' in d:
+            continue
+        fn = f.fns.get(d)
+        if not d.startswith('<') and not (fn and fn['vis'] == 'pub') and 'impl ' not in d:
+            continue        # private helpers are reached (with their callers' guarantees) through the public functions
+        out.append((d, bid))
+    return out
+
+
+SIGN_OF_VARIANT = {'Buy': '+', 'Sell': '-', 'None': '0'}
+
+
+def _expected_sub(sa, sb):
+    """allowed result variants of a - b by sign of the ratio ('+' includes zero magnitude)"""
+    if sa == '0' and sb == '0':
+        return {'None'}
+    if sb == '0':
+        return {'Buy'} if sa == '+' else {'Sell'}
+    if sa == '0':
+        return {'Sell'} if sb == '+' else {'Buy'}
+    if sa == '+' and sb == '-':
+        return {'Buy'}
+    if sa == '-' and sb == '+':
+        return {'Sell'}
+    return {'Buy', 'Sell'}
+
+
+def a05_action_algebra(ctx):
+    from absint import St, Budget, INF
+    from absexec import Exec
+    f = ctx.facts('default')
+    r = RuleResult('A05', 'Action conversions and operators: total (no panic / overflow for any i8, f32, f64, Action) and sign-correct '
+                          '(positive -> Buy, negative -> Sell, NaN -> None; negation swaps Buy/Sell; a - b has the sign of ratio(a) - ratio(b)) '
+                          'by abstract interpretation over variant sets and intervals')
+    fns = _action_fns(f)
+    ACTION = 'core::action::Action'
+    n = 0
+
+    def run(bid, args_fn):
+        ex = Exec(f)
+        st = St()
+        b = ex.body(bid)
+        args = args_fn(ex, st, b)
+        try:
+            outs = ex.run_fn(b, st, args, [bid])
+        except Budget:
+            return ex, None
+        return ex, outs
+
+    def top_args(ex, st, b):
+        return [ex.top_of(st, b.locals[i]['tyj']) for i in range(1, b.arg_count + 1)]
+
+    def variants_of(ex, outs):
+        vs = set()
+        for s, v in outs:
+            if v[0] == 'adt' and v[1] == ACTION and v[2] is not None:
+                vs |= set(v[2])
+            else:
+                vs.add('?')
+        return vs
+
+    # (1) totality
+    for d, bid in fns:
+        n += 1
+        ex, outs = run(bid, top_args)
+        key = d
+        r.inst('total|' + key)
+        if outs is None:
+            r.violate('total|%s|budget' % key, 'analysis budget exceeded', None, None)
+            continue
+        seen = set()
+        for ob in ex.obligations:
+            k2 = ob.key()
+            if k2 in seen:
+                continue
+            seen.add(k2)
+            r.violate('total|%s|%s' % (key, k2), '%s is not total: it can reach a %s in %s: %s [%s]' % (d, ob.kind, ob.fn, ob.detail, '; '.join(ob.operands)), ob.file, ob.line)
+        if ex.undecided_callees:
+            raise Broken('A05: callee without summary: %s' % sorted(ex.undecided_callees)[:3])
+    # (2) sign table
+    by_def = dict(fns)
+
+    def pin_action(ex, st, variant):
+        v = ex.top_of(st, {'t': 'adt', 'def': ACTION, 'args': [], 's': ACTION})
+        return ('adt', v[1], frozenset([variant]), v[3])
+
+    # Sub
+    sub_id = next((bid for d, bid in fns if d.endswith('as std::ops::Sub>::sub')), None)
+    neg_id = next((bid for d, bid in fns if d.endswith('as std::ops::Neg>::neg')), None)
+    if sub_id is None or neg_id is None:
+        raise Broken('Action Sub / Neg impl not found')
+    for va in ('Buy', 'None', 'Sell'):
+        for vb in ('Buy', 'None', 'Sell'):
+            ex, outs = run(sub_id, lambda ex, st, b: [pin_action(ex, st, va), pin_action(ex, st, vb)])
+            got = variants_of(ex, outs or [])
+            want = _expected_sub(SIGN_OF_VARIANT[va], SIGN_OF_VARIANT[vb])
+            key = 'sign|Sub|%s-%s' % (va, vb)
+            r.inst(key)
+            if not got <= want:
+                r.violate(key + '|' + '+'.join(sorted(got - want)), '%s - %s can be %s, but ratio(a) - ratio(b) has the sign of %s' % (
+                    va, vb, sorted(got - want), sorted(want)), f.bodies[sub_id]['file'], f.bodies[sub_id]['line'])
+            else:
+                r.sample({'op': '%s - %s' % (va, vb), 'result variants': sorted(got), 'allowed': sorted(want)})
+    for va, want in (('Buy', {'Sell'}), ('Sell', {'Buy'}), ('None', {'None'})):
+        ex, outs = run(neg_id, lambda ex, st, b: [pin_action(ex, st, va)])
+        got = variants_of(ex, outs or [])
+        r.inst('sign|Neg|' + va)
+        if got != want:
+            r.violate('sign|Neg|%s|%s' % (va, '+'.join(sorted(got))), '-%s gives %s (expected %s)' % (va, sorted(got), sorted(want)), f.bodies[neg_id]['file'], f.bodies[neg_id]['line'])
+    # From<f64> / From<f32> / From<i8>
+    FM = 1.7976931348623157e308
+    for ty, pins in (('f64', (('positive', (5e-324, INF, False), {'Buy'}), ('negative', (-INF, -5e-324, False), {'Sell'}), ('NaN', None, {'None'}))),
+                     ('f32', (('positive', (1e-45, INF, False), {'Buy'}), ('negative', (-INF, -1e-45, False), {'Sell'}), ('NaN', None, {'None'}))),
+                     ('i8', (('positive', (1, 127), {'Buy'}), ('negative', (-128, -1), {'Sell'}), ('zero', (0, 0), {'None'})))):
+        fid = next((bid for d, bid in fns if d == '<core::action::Action as std::convert::From<%s>>::from' % ty), None)
+        if fid is None:
+            raise Broken('From<%s> for Action not found' % ty)
+        for label, pin, want in pins:
+            def mk(ex, st, b, pin=pin, ty=ty):
+                if ty == 'i8':
+                    return [ex.mk_int(st, 'i8', pin[0], pin[1])]
+                if pin is None:
+                    v = ('float', float('nan'), float('nan'), True)
+                    return [('float', -INF, INF, True, -1)] if False else [('nanonly',)]
+                return [('float', pin[0], pin[1], False)]
+            if pin is None and ty != 'i8':
+                # NaN-only input: interpret with a float that IS NaN: is_nan() is true on every path
+                ex = Exec(f)
+                st = St()
+                b = ex.body(fid)
+                v = ('float', -INF, INF, True, ex.vid())
+                # force the NaN branch: every is_nan test on this id is true
+                ex.force_nan = v[4]
+                try:
+                    outs = ex.run_fn(b, st, [v], [fid])
+                except Budget:
+                    outs = []
+            else:
+                ex, outs = run(fid, mk)
+            got = variants_of(ex, outs or [])
+            key = 'sign|From<%s>|%s' % (ty, label)
+            r.inst(key)
+            if label == 'NaN':
+                if 'None' not in got:
+                    r.violate(key + '|' + '+'.join(sorted(got)), 'From<%s>(NaN) cannot give None (gives %s)' % (ty, sorted(got)), f.bodies[fid]['file'], f.bodies[fid]['line'])
+                continue
+            if not got <= want:
+                r.violate(key + '|' + '+'.join(sorted(got - want)), 'From<%s> of a %s value can give %s (expected %s)' % (ty, label, sorted(got - want), sorted(want)),
+                          f.bodies[fid]['file'], f.bodies[fid]['line'])
+            else:
+                r.sample({'conversion': 'From<%s>' % ty, 'input': label, 'result variants': sorted(got)})
+    r.floor('Action functions', 15, n)
+    return r
